@@ -10,7 +10,7 @@ PARTIAL = ("Proved per operation (refinement to list operations on the option's 
            "refuse) and the frame property at any depth: an update through one option reference leaves the option at every disjoint reference "
            "exactly as it was (lens_frame), so every by-path setter - successful or refused - touches the addressed option only (C09_api_frame): the "
            "store is a map from references to value sequences and each call is a point update. Sequences are compositions of these; that a path "
-           "names the reference the caller means is C11_resolve. The tie enumerates all sequences to depth 2/3 over 63 calls from two start states "
+           "names the reference the caller means is C11_resolve. The tie enumerates all sequences to depth 2/3 over 64 calls from two start states "
            "plus random sequences to length 40.")
 VARIANT = "asan"
 RULE = ("operation sequences over a finite alphabet of API calls and arguments (scalar/indexed setters, cfg_setlist/addlist, "
@@ -41,7 +41,7 @@ OPS = [
     "SM 0 %s %s %s" % (hx("bl"), hx("yes"), hx("Off")), "SM 0 %s %s %s" % (hx("bl"), hx("on"), hx("maybe")), "SM 0 %s %s" % (hx("b"), hx("TRUE")), "SO 0 %s %s" % (hx("l"), hx("21")), "SO 0 %s %s" % (hx("i"), hx("zz")), "SO 0 %s %s" % (hx("i"), hx("0x10")),
     "AT 0 %s %s" % (hx("m"), hx("a")), "AT 0 %s %s" % (hx("m"), hx("b")), "AT 0 %s %s" % (hx("u"), hx("a")), "AT 0 %s %s" % (hx("nosuch"), hx("a")),
     # adding a "section" to an option that is not one, and adding one without a title (F37)
-    "AT 0 %s %s" % (hx("i"), hx("5")), "AT 0 %s -" % hx("m"), "AT 0 %s -" % hx("n"),
+    "AT 0 %s %s" % (hx("i"), hx("5")), "AT 0 %s -" % hx("m"), "AT 0 %s -" % hx("n"), "SO 0 %s -" % hx("m"),
     # the same title in another letter case: the same section under a case-insensitive context, another one otherwise
     "AT 0 %s %s" % (hx("m"), hx("A")), "RT 0 %s %s" % (hx("m"), hx("A")),
     "RN 0 %s 0" % hx("m"), "RN 0 %s 1" % hx("m"), "RT 0 %s %s" % (hx("m"), hx("a")), "RT 0 %s %s" % (hx("u"), hx("zz")), "RS 0 %s" % hx("m=b"),
